@@ -298,6 +298,7 @@ def generate_ising(
     agents = {}
     fg_mapping = defaultdict(lambda: [])
     var_mapping = defaultdict(lambda: [])
+    mapped_constraints = set()
     for (row, col) in grid_graph.nodes:
         agent = AgentDef(f"a_{row}_{col}")
         agents[agent.name] = agent
@@ -312,10 +313,15 @@ def generate_ising(
             fg_mapping[agent.name].append(f"cu_v_{row}_{col}")
             # Sort coordinate to make sure we build the name in the same order as when
             # creating the constraints:
-            (r1, c1), (r2, c2) = sorted([(row, col), (left, col)])
-            fg_mapping[agent.name].append(f"cb_v_{r1}_{c1}_v_{r2}_{c2}")
-            (r1, c1), (r2, c2) = sorted([(row, col), (row, down)])
-            fg_mapping[agent.name].append(f"cb_v_{r1}_{c1}_v_{r2}_{c2}")
+            # On a grid with 2 rows (resp. columns) both ends of an edge designate each
+            # other and with 1 row (resp. column) a node designates itself: only map
+            # constraints that exist, and each of them only once.
+            for neighbor in [(left, col), (row, down)]:
+                (r1, c1), (r2, c2) = sorted([(row, col), neighbor])
+                c_name = f"cb_v_{r1}_{c1}_v_{r2}_{c2}"
+                if c_name in binary_constraints and c_name not in mapped_constraints:
+                    mapped_constraints.add(c_name)
+                    fg_mapping[agent.name].append(c_name)
 
     name = f"Ising_{row_count}_{col_count}_{bin_range}_{un_range}"
     if no_agents:
